@@ -141,6 +141,7 @@ theorem code_fllEngine (fll : String) :
     | .ok v => ∃ σ, Gen.Code.FllImporter_engine.run fll {} = .ok σ ∧ σ.ret = some v := by
   have h := code_engine fll
   unfold importTextLazy at h
+  change Agree _ (Except.map some (engineLoopText (Py.Fll.splitLines fll) none [] {})) _ at h
   generalize engineLoopText (Py.Fll.splitLines fll) none [] {} = r at h ⊢
   cases r <;> exact h
 
